@@ -230,7 +230,7 @@ pub fn run(run: &mut Run) {
     run.notes.push("full scans: all 20,480 syntactically valid strings + 0000 on every REACH(2) state; elsewhere all strings whose source square is occupied plus those of the lowest empty square".into());
     run_universes(run, &selfull, DISAGREE, &check_pos_full);
     let sel = if thorough {
-        Sel { m3: true, ep: Some(true), castle: Some(true), promo: Some(true), reach: Some(3), pin2: Some(4), multicheck: Some(3), checkpin: Some(3), castle2: true, counts: true, hist: Some((3, 2)), ..Default::default() }
+        Sel { m3: true, ep: Some(true), castle: Some(true), promo: Some(true), reach: Some(3), pin2: Some(4), multicheck: Some(3), checkpin: Some(3), castle2: true, hemmed: true, counts: true, promorow: true, hist: Some((3, 2)), ..Default::default() }
     } else {
         Sel { ep: Some(false), ep_spread_only: true, castle: Some(false), promo: Some(false), ..Default::default() }
     };
@@ -242,7 +242,7 @@ pub fn run(run: &mut Run) {
         let m3 = Sel { m3: true, ..Default::default() };
         run_universes(run, &m3, DISAGREE, &check_pos_own);
         // six-men king-zone families: strings whose source holds a man of the side to move
-        let kz = Sel { multicheck: Some(1), checkpin: Some(1), castle2: true, counts: true, ..Default::default() };
+        let kz = Sel { multicheck: Some(1), checkpin: Some(1), castle2: true, hemmed: true, counts: true, promorow: true, ..Default::default() };
         run_universes(run, &kz, DISAGREE, &check_pos_own);
     }
     // round trips of every semilegal move (and the null refusals) on the deeper REACH tier
